@@ -28,6 +28,7 @@ pub fn all() -> Vec<Scenario> {
     vec![
         Scenario { name: "mapref_reobserved", props: &["C01", "C06"], run: mapref_reobserved },
         Scenario { name: "mapref_reobserved_same_round_write", props: &["C01"], run: mapref_reobserved_same_round_write },
+        Scenario { name: "mapref_stacked_reobserved", props: &["C01", "C06"], run: mapref_stacked_reobserved },
         Scenario { name: "sibling_chain_bind", props: &["C02", "C03", "C04"], run: sibling_chain_bind },
         Scenario { name: "dead_rhs_node_height_adjust", props: &["C04"], run: dead_rhs_node_height_adjust },
         Scenario { name: "second_observer_spurious_changed", props: &["C09"], run: second_observer_spurious_changed },
@@ -660,6 +661,38 @@ fn mapref_reobserved_same_round_write() -> Result<(), String> {
         o2.try_get_value()
     );
     drop(keep);
+    Ok(())
+}
+
+fn mapref_stacked_reobserved() -> Result<(), String> {
+    for second_write in [false, true] {
+        let st = IncrState::new();
+        let v = st.var(((1i64, 7i64), 0i64));
+        let keep = v.observe();
+        let inner = v.map_ref(|t| &t.0);
+        let outer = inner.map_ref(|p| &p.0);
+        let m = outer.map(|x| x * 100);
+        let o = m.observe();
+        st.stabilise();
+        check!(o.try_get_value() == Ok(100), "round1 {:?}", o.try_get_value());
+        drop(o);
+        st.stabilise();
+        // both projections change while the two map_refs are unobserved (the input stays observed)
+        v.set(((2, 7), 0));
+        st.stabilise();
+        let o2 = m.observe();
+        if second_write {
+            // the input changes again in the round of re-observation, with equal projections
+            v.set(((2, 7), 1));
+        }
+        st.stabilise();
+        check!(
+            o2.try_get_value() == Ok(200),
+            "dependant of two stacked map_refs re-observed after the projection changed (second write in that round: {second_write}) returned {:?}, expected Ok(200)",
+            o2.try_get_value()
+        );
+        drop(keep);
+    }
     Ok(())
 }
 
